@@ -46,6 +46,11 @@ FAMILIES = [
     Fam("homogeneous_transform_3d", [(3, 4), (3,)], _hom),
     Fam("hmm_affine_translation", [(2, 2), (2, 1)], _hmm, note="core.linalg.homogeneous_matmul, mixed operand forms"),
     Fam("hmm_3d", [(3, 4), (3, 4)], _hmm),
+    Fam("hmm_affine_homogeneous", [(2, 2), (2, 3)], _hmm, note="AFFINE x HOMOGENEOUS operand pair"),
+    Fam("hmm_homogeneous_affine", [(2, 3), (2, 2)], _hmm, note="HOMOGENEOUS x AFFINE operand pair"),
+    Fam("hmm_translation_homogeneous", [(3, 1), (3, 4)], _hmm, note="TRANSLATION x HOMOGENEOUS operand pair"),
+    Fam("hmm_homogeneous_translation", [(3, 4), (3, 1)], _hmm),
+    Fam("hmm_affine_affine", [(3, 3), (3, 3)], _hmm),
     Fam("mse_loss", [(1, 1, 2, 3), (1, 1, 2, 3)], lambda m, x, y: m.losses.mse_loss(x, y)),
     Fam("ssd_loss", [(1, 1, 2, 3), (1, 1, 2, 3)], lambda m, x, y: m.losses.ssd_loss(x, y)),
     Fam("ncc_loss", [(1, 1, 2, 3), (1, 1, 2, 3)], lambda m, x, y: m.losses.ncc_loss(x, y), note="sqrt of variances"),
